@@ -13,6 +13,15 @@ fn fresh_id() -> usize {
     NEXT.fetch_add(1, Ordering::Relaxed)
 }
 
+thread_local! {
+    static HELD: std::cell::Cell<usize> = std::cell::Cell::new(0);
+}
+
+/// how many of the runtime's mutexes the calling thread holds
+pub fn held_mutexes() -> usize {
+    HELD.with(|h| h.get())
+}
+
 fn site_of(l: &Location<'_>) -> String {
     let f = l.file();
     let base = f.rsplit('/').next().unwrap_or(f);
@@ -65,6 +74,7 @@ impl<T: ?Sized> Mutex<T> {
         // the thread may be preempted here, holding the mutex; the `lock` event marks the start of
         // the part of the locked block that runs without interruption (every read the block makes
         // of state that other threads change without the mutex happens after it)
+        HELD.with(|h| h.set(h.get() + 1));
         rt.maybe_preempt(me);
         rt.log(me, format!("lock {}", self.site));
     }
@@ -85,6 +95,7 @@ impl<T: ?Sized> Mutex<T> {
             rt.log(me, format!("trylock-busy {}", self.site));
             return Err(TryLockError::WouldBlock);
         }
+        HELD.with(|h| h.set(h.get() + 1));
         rt.log(me, format!("lock {}", self.site));
         let g = MutexGuard { m: self, panicking_at_lock: std::thread::panicking() };
         if self.poisoned.load(Ordering::SeqCst) {
@@ -95,6 +106,7 @@ impl<T: ?Sized> Mutex<T> {
     }
     fn release(&self) {
         let (rt, me) = current();
+        HELD.with(|h| h.set(h.get().saturating_sub(1)));
         self.locked.store(false, Ordering::SeqCst);
         let mut g = rt.inner.lock().unwrap();
         g.log(me, format!("unlock {}", self.site));
